@@ -44,14 +44,21 @@ def sweep_specs():
             dict(n_origins=1, max_connections=1, max_keepalive=None, keepalive_expiry=None, n_callers=3, reqs=2),
             dict(n_origins=2, max_connections=1, max_keepalive=1, keepalive_expiry=None, n_callers=3, reqs=2),
             dict(n_origins=1, max_connections=2, max_keepalive=0, keepalive_expiry=None, n_callers=3, reqs=2),
-            dict(n_origins=2, max_connections=2, max_keepalive=1, keepalive_expiry=0.02, n_callers=4, reqs=2)]):
+            dict(n_origins=2, max_connections=2, max_keepalive=1, keepalive_expiry=0.02, n_callers=4, reqs=2),
+            # one caller queues with a pool timeout that is shorter than the pause of the pre-empted thread: the timeout
+            # expires while another thread is in the middle of whatever it was doing (hand-over, clean-up, ...)
+            dict(n_origins=2, max_connections=1, max_keepalive=None, keepalive_expiry=None, n_callers=3, reqs=2,
+                 pool_timeout=0.02, pool_timeout_callers=[1], family="F4"),
+            dict(n_origins=1, max_connections=1, max_keepalive=1, keepalive_expiry=None, n_callers=3, reqs=2,
+                 pool_timeout=0.015, pool_timeout_callers=[0, 2], family="F4")]):
         r = random.Random(1000 + i)
         base = dict(proxy=None, fault_ops=[], latency="zero", think=0.0, pool_timeout=None, resp_delay=0.01,
                     behaviours=["read", "head-only", "read", "partial"], server_modes=False, early=False, max_body=3000,
                     proto="h1", retries=0, connect_fail=0.0)
+        fam = kw.pop("family", "F2")
         base.update(kw)
         spec = gen_spec(r, "sync", **base)
-        spec["family"] = "F2"
+        spec["family"] = fam
         spec.pop("pool_kw", None)
         out.append(spec)
     return out
@@ -235,7 +242,7 @@ def plan(tier, seed):
         cases.append({"specs": specs, "scheds": scheds, "seed": r.randrange(1 << 30)})
     specs = sweep_specs()
     n_chunks = 8 if tier == "quick" else 16
-    for spec in (specs[:2] if tier == "quick" else specs):
+    for spec in ([specs[0], specs[1], specs[4]] if tier == "quick" else specs):
         for chunk in range(n_chunks):
             cases.append({"kind": "sweep", "spec": spec, "chunk": chunk, "n_chunks": n_chunks,
                           "occs": [1, 2, 4] if tier == "quick" else [1, 2, 3, 4, 6, 9, 14],
